@@ -1214,6 +1214,8 @@ def await_future(ip, fut):
 def await_model(ip, aw: AwaitableVal):
     ctx = ip.ctx
     k = aw.kind
+    if k in ("checkpoint", "checkpoint_if_cancelled"):
+        ctx.unit.on_cancellation_check(ip, k)
     if k == "checkpoint":
         ctx.flags["checked"] = True
         suspend(ip, "checkpoint")
